@@ -67,8 +67,10 @@ cleanup_cache(struct read_cache *cache)
 	slot = &cache->slot[0];
 	do {
 		addrxlat_buffer_t *buf = &slot->buffer;
-		if (buf->size)
+		if (buf->size) {
 			buf->put_page(buf);
+			buf->size = 0;
+		}
 	} while (++slot < &cache->slot[READ_CACHE_SLOTS]);
 }
 
@@ -478,6 +480,9 @@ addrxlat_ctx_del_cb(addrxlat_ctx_t *ctx, addrxlat_cb_t *cb)
 		p = p->next;
 	}
 	if (p) {
+		/* Cached pages may have been obtained through this callback;
+		 * give them back while the callback owner still exists. */
+		cleanup_cache(&ctx->cache);
 		*pprev = cb->next;
 		free(cb);
 	}
